@@ -177,6 +177,17 @@ CHECKS = {
         "(frozen now, container shapes); character classification by Python's str.isspace/isdecimal in the harness.",
         "DESIGN.md §6 C20",
     ),
+    "C19": (
+        "Coq proof (case analysis over a model of Python's built-in values; tables proved for every integer / every code string; precedence lemmas; regex search characterised) tied by in-Coq equality of all classifier answers on generated exception objects incl. exhaustive integer ranges",
+        "Theorems C19_* (marker types win over codes, codes over names, strict ignores names; status table and http table for every "
+        "integer; first-int attribute order of http_classifier; SQLSTATE table, attribute before args, fallbacks; optional-library "
+        "classifier = default_classifier when the library is absent) for the Gallina model Classify.v over pyval. Totality is by "
+        "construction in the model (total functions); that the code does not raise on this value universe is checked by the "
+        "correspondence run. With-library behaviour of the optional classifiers is not claimed.",
+        "Trusted: Coq kernel + vm_compute; hand-written model Classify.v (tied by correspondence only); classify_driver.py; the "
+        "harness's transcription of values (str() text, code points, \\w flag per character).",
+        "DESIGN.md §6 C19",
+    ),
 }
 
 NOT_YET = "check not built yet at this commit (work in progress; see DESIGN.md §10 build order)"
